@@ -110,8 +110,53 @@ def run(ctx, rep):
     check_only_grows(fx, rep)
     check_loop_contexts(fx, rep)
     check_return_window(fx, rep)
+    check_context_confinement(fx, rep)
     rep.assume('Vec::resize(len, 0) zero-fills (standard library)')
     rep.assume('cfg memory_limit adds an early MemoryLimitOOG return inside the size test; it only removes paths')
+
+
+METADATA_OPS = {'len', 'capacity', 'resize', 'set_len', 'truncate', 'reserve', 'reserve_exact', 'with_capacity', 'clear', 'is_empty', 'shrink_to_fit'}
+
+
+def check_context_confinement(fx, rep):
+    """R6: the frames share one buffer; a frame's offsets are relative to its own checkpoint.  Only
+    context_memory / context_memory_mut may get at the buffer's contents (they slice it from
+    last_checkpoint); every other method reaches the bytes through them and touches the Vec itself
+    only for its length (len / resize / set_len ...)."""
+    n = 0
+    for f in fx.fns_all:
+        if '::test' in f.nq or not f.crate or f.crate.endswith('-test'):
+            continue
+        if f.kind not in ('Fn', 'AssocFn', 'Closure'):
+            continue
+        if f.d.get('exp') or f.impl_trait:
+            continue        # derived Clone / PartialEq / Hash / Debug copy or compare the whole value
+        og = None
+        for bi, t in f.calls():
+            if not t.args:
+                continue
+            a0 = t.args[0]
+            if a0.place is None:
+                continue
+            if og is None:
+                if not any('shared_memory::SharedMemory' in (l.get('ty') or '') for l in f.locals[:f.argc + 1]) and not f.nq.startswith(SM):
+                    break
+                og = Origins(f, fx)
+            hit = False
+            for o in og.of_operand(a0):
+                if o.path and '.buffer' in o.path and ('SharedMemory' in (f.local_ty(o.root[1]) if o.root[0] == 'param' else '') or f.nq.startswith(SM)):
+                    hit = True
+            if not hit:
+                continue
+            short = (t.callee or '').split('::')[-1]
+            n += 1
+            who = f.nq.split('::')[-1] if not f.nq.startswith(SM) else f.nq[len(SM):]
+            if short in METADATA_OPS or who in ('context_memory', 'context_memory_mut'):
+                rep.ok('R6-context-confinement', '%s:%s' % (who, short), 'length only' if short in METADATA_OPS else 'the context window')
+            else:
+                rep.violation('R6-context-confinement', '%s:%s' % (who, short),
+                              'SharedMemory::%s reaches the shared buffer\'s contents directly (`%s`): offsets would be absolute, i.e. another frame\'s memory, instead of relative to this frame\'s checkpoint' % (who, short), f.where(bi))
+    rep.floor('R6-buffer-uses', n, 8)
 
 
 def check_access_coverage(fx, rep):
